@@ -279,6 +279,17 @@ def main(argv):
                 payload['replay_error'] = str(e)
         p = write_replay(r['name'], payload)
         violations.append((r['name'], p, suffix))
+    # ---------------------------------------------------------------- thorough: the property's must-fail corpus
+    selftest_res = None
+    if tier == 'thorough' and not os.environ.get('GOVC_NO_SELFTEST') and not violations:
+        try:
+            from . import selftest
+            selftest_res = selftest.run(pid, parallel=2)
+            for sr in selftest_res:
+                if not sr['status'].startswith('detected') and sr['status'] != 'stale':
+                    known_lines.append('SELFTEST-MISS: property=%s %s (%s) is not detected by the quick check' % (pid, sr['name'], sr['kind']))
+        except Exception as e:
+            selftest_res = [{'status': 'error', 'detail': str(e)}]
     wall = time.time() - t_start
     by_backend = {}
     for r in results:
@@ -305,6 +316,7 @@ def main(argv):
             'vacuity_covers_passed': covers_ok,
             'not_decided': P.get('not_decided', []),
             'known_findings_matched': matched_known,
+            'must_fail_corpus': selftest_res if selftest_res is not None else 'run in the thorough tier (tools/selftest.sh); last full run: /verif/selftest/RESULTS.md',
             'obligations_outside_this_property_not_checked': outside if prog is not None and contracts is not None else [],
             'undischarged': [{'obligation': r['name'], 'verdict': r['verdict'], 'reason': r.get('reason')} for r in results if r['verdict'] != 'unsat'],
             'vc_generation_seconds': round(gen_time, 2),
